@@ -184,6 +184,11 @@ func scenarios(th bool) []scenario {
 				fb = 1
 			}
 			out = append(out, scenario{Class: "conc-fault", PreHash: idx(c.pre), Clients: c.cl, Cache: k, Concurrent: true, Faults: "basic", MaxFaults: 1, Bound: fb})
+			if !th && c.pre == nil && (k == "advM" || k == "lru1") {
+				// two first-time submissions of one chain and a reader: one preemption AND one fault (the second writer
+				// overtakes the first before the first one's storage write fails)
+				out = append(out, scenario{Class: "conc-fault2", PreHash: nil, Clients: [][]op{c.cl[0], c.cl[1]}, Cache: k, Concurrent: true, Faults: "basic", MaxFaults: 1, Bound: 2})
+			}
 		}
 	}
 	return out
